@@ -9,7 +9,7 @@ PID = "C15"
 
 def wanted_replay(clause):
     # replay.draw_kind_range: the number of inner samples (constructor value / per-call override) fixes the draws of a call
-    return clause in ("replay.seen", "replay.storage", "replay.draw_kind_range")
+    return clause in ("replay.seen", "replay.storage", "replay.draw_range")
 
 
 def wanted_trace(clause, trace, call):
